@@ -94,7 +94,7 @@ func (s *StepReadConfig) Run(i *input.Input, _ *output.Output) (err error) {
 				}
 
 				tmp := input.Input{}
-				if err := yaml.Unmarshal(buff, &tmp); err != nil {
+				if err := unmarshalYAML(buff, &tmp); err != nil {
 					pErrs = append(pErrs, grouperror.Prefix("parsing yaml: ", err))
 					return
 				}
@@ -129,6 +129,17 @@ func (s *StepReadConfig) Run(i *input.Input, _ *output.Output) (err error) {
 
 // findFiles returns list of files found by given pattern.
 // Names are returned in the lexical order.
+// unmarshalYAML wraps yaml.Unmarshal, which panics instead of returning an error for some malformed documents
+// (e.g. a mapping that holds a merge key "<<" together with a key that is a mapping itself).
+func unmarshalYAML(buff []byte, i *input.Input) (err error) {
+	defer func() {
+		if r := recover(); r != nil {
+			err = fmt.Errorf("unexpected error: %v", r)
+		}
+	}()
+	return yaml.Unmarshal(buff, i)
+}
+
 func (s *StepReadConfig) findFiles(pattern string) ([]string, error) {
 	matches, err := filepath.Glob(pattern)
 	if err != nil {
